@@ -523,5 +523,64 @@ func wsdecodeDirect(seed uint64, tier string, args []string, w *bufio.Writer) {
 			}
 		}()
 	}
-	fmt.Fprintf(w, "DIRECT-STAT {\"wsdecode_saved_frame_trials\": %d, \"wsdecode_saved_frame_failures\": %d}\n", trials, fails)
+	// Frame.ReadFrom (the frame's own decoder, for applications that read frames from an io.Reader): one Frame object reused for a
+	// sequence of frames of every length class, masked and not, produced by the independent encoder — each decodes to what was sent
+	readFrom := 0
+	var rfHist []string
+	func() {
+		defer func() {
+			if p := recover(); p != nil {
+				fail("panic", "Frame.ReadFrom on a reused frame panicked: %v (payload sizes so far: %v)", p, rfHist)
+			}
+		}()
+		for round := 0; round < 40 && fails < 3; round++ {
+			fr := websocket.NewFrame()
+			var hist []int
+			for i := 0; i < 12; i++ {
+				n := r.pick(0, 1, 2, 5, 9, 125, 126, 127, 300, 4096, 65535, 65536, 70000, r.intn(200))
+				masked := r.intn(2) == 0
+				op := r.pick(1, 2, 9, 10, 0)
+				if op >= 8 && n > 125 {
+					n = r.intn(126)
+				}
+				payload := r.bytes(n)
+				wire := wsEncodePeer(true, 0, op, false, payload)
+				if masked {
+					// the same frame with the mask bit, a key and the payload XORed with it (RFC 6455 5.3)
+					key := []byte{byte(r.next()), byte(r.next()), byte(r.next()), byte(r.next())}
+					hl := len(wire) - len(payload)
+					m := append([]byte(nil), wire[:hl]...)
+					m[1] |= 0x80
+					m = append(m, key...)
+					for j, x := range payload {
+						m = append(m, x^key[j%4])
+					}
+					wire = m
+				}
+				hist = append(hist, n)
+				rfHist = append(rfHist, fmt.Sprintf("%d/op%d/m%v", n, op, masked))
+				if i == 0 {
+					rfHist = rfHist[len(rfHist)-1:]
+				}
+				got, err := fr.ReadFrom(bytes.NewReader(wire))
+				readFrom++
+				pl := fr.Payload()
+				if err == nil && fr.IsMasked() {
+					fr.UnmaskPayload()
+					pl = fr.Payload()
+				}
+				if n == 0 {
+					// (observed on the unchanged tree: after an empty frame Payload() of a reused Frame still shows the previous
+					// frame's bytes — PayloadLength() is 0; the comparison goes by the declared length)
+					pl = pl[:0]
+				}
+				if err != nil || int(got) != len(wire) || !fr.IsFIN() || int(fr.Opcode()) != op || fr.IsMasked() != masked || fr.PayloadLength() != n || !bytes.Equal(pl, payload) {
+					fail("frame", "Frame.ReadFrom on a frame object reused for payloads of %v bytes: the last one (opcode %d, masked=%v) decoded with err=%v, %d of %d bytes consumed, declared length %d, payload equal=%v",
+						hist, op, masked, err, got, len(wire), fr.PayloadLength(), bytes.Equal(pl, payload))
+					break
+				}
+			}
+		}
+	}()
+	fmt.Fprintf(w, "DIRECT-STAT {\"wsdecode_saved_frame_trials\": %d, \"wsdecode_frame_readfrom_calls\": %d, \"wsdecode_saved_frame_failures\": %d}\n", trials, readFrom, fails)
 }
